@@ -223,12 +223,20 @@ def run(prog: Program, res: Result) -> None:
     res.count("direction-flags", len(flags))
     coltype = {}
     n_rank = 0
+    # the score table may be worked on through a local: `df = pd.DataFrame(rows); self._df_fit = df` or `df = self._df_fit`
+    frame_names = {"self._df_fit"}
+    for n_ in own_nodes(ex):
+        if isinstance(n_, ast.Assign) and len(n_.targets) == 1:
+            if dotted(n_.targets[0]) == "self._df_fit" and isinstance(n_.value, ast.Name):
+                frame_names.add(n_.value.id)
+            if isinstance(n_.targets[0], ast.Name) and dotted(n_.value) == "self._df_fit":
+                frame_names.add(n_.targets[0].id)
 
     def col_of(e):
         """self._df_fit["x"] -> "x";  self._df_fit[["a","b"]] -> ["a","b"]; self._df_fit[trial_columns] -> "<trials>" """
-        if isinstance(e, ast.Name):
+        if isinstance(e, ast.Name) and e.id not in frame_names:
             e = origin(ex.node, e)
-        if isinstance(e, ast.Subscript) and dotted(e.value) == "self._df_fit":
+        if isinstance(e, ast.Subscript) and dotted(e.value) in frame_names:
             s = e.slice
             if isinstance(s, ast.Constant) and isinstance(s.value, str):
                 return s.value
@@ -351,9 +359,10 @@ def run(prog: Program, res: Result) -> None:
         res.errors.append("assignment of self._best_row not found")
         return
     v = best_row_src.value
+    v = origin(ex.node, v) if isinstance(v, ast.Name) else v
     okw = False
     wcol = None
-    if isinstance(v, ast.Subscript) and dotted(v.value) == "self._df_fit" and isinstance(v.slice, ast.Compare) and len(v.slice.ops) == 1 \
+    if isinstance(v, ast.Subscript) and dotted(v.value) in frame_names and isinstance(v.slice, ast.Compare) and len(v.slice.ops) == 1 \
             and isinstance(v.slice.ops[0], ast.Eq):
         l, r = v.slice.left, v.slice.comparators[0]
         for a, b in ((l, r), (r, l)):
